@@ -318,6 +318,40 @@ func rulesC13(r *Run) {
 	ruleTimeDecoding(r, "R7")
 	r.Expect("R7", 3)
 
+	// ---- R9 error discipline on the read side (mutation sweep of session 2): "Read returns exactly what was written, or an
+	// error — never a partial plan" needs every error inside the read scope to reach the caller. The same K6 rule as
+	// C14-R2, over everything reader.Read reaches inside the package (one obligation per error-producing call site).
+	r.Kind("R9", "K6")
+	{
+		inPkg := func(e CallEdge) bool { return strings.HasPrefix(e.Callee, pkgSqlite+".") }
+		entries := []string{sqlKey("reader.Read"), sqlKey("reader.Exists"),
+			// the update side: "after any sequence of object updates, the latest status …" needs a failed update to be an error
+			sqlKey("planUpdater.UpdatePlan"), sqlKey("blockUpdater.UpdateBlock"), sqlKey("checksUpdater.UpdateChecks"),
+			sqlKey("sequenceUpdater.UpdateSequence"), sqlKey("actionUpdater.UpdateAction")}
+		reach := r.P.CallGraph().Reach(entries, inPkg)
+		inCos := func(e CallEdge) bool { return strings.HasPrefix(e.Callee, pkgCosmos+".") && !strings.Contains(e.Callee, "fakeStorage") }
+		for k, v := range r.P.CallGraph().Reach([]string{cosKey("reader.Read"), cosKey("reader.Exists"), cosKey("updater.UpdateObject"),
+			cosKey("updater.UpdatePlan"), cosKey("updater.UpdateBlock"), cosKey("updater.UpdateChecks"), cosKey("updater.UpdateSequence"), cosKey("updater.UpdateAction")}, inCos) {
+			reach[k] = v
+		}
+		var keys []string
+		for k := range reach {
+			keys = append(keys, k)
+		}
+		sort.Strings(keys)
+		for _, k := range keys {
+			if fn := r.P.Funcs[k]; fn != nil && fn.Decl.Body != nil && hasErrorResult(fn) {
+				file := r.P.Fset.Position(fn.Decl.Pos()).Filename
+				if strings.HasSuffix(file, "fake_storage.go") || strings.HasSuffix(file, "testing.go") {
+					continue
+				}
+				r.Funcs[k] = true
+				errorDiscipline(r, "R9", fn)
+			}
+		}
+		r.Expect("R9", 60)
+	}
+
 	// ---- R8 a Create that returns an error leaves nothing that Read would return (round-3 seed C13-5): the create
 	// transaction watches the error the function returns
 	r.Kind("R8", "K11+K3")
@@ -929,7 +963,7 @@ func errorDiscipline(r *Run, rule string, fn *Func) {
 						case li >= 0 && li < ri:
 							problem = "the failing branch does not return: the loop simply continues and the error is lost (the transaction would commit a partial object)"
 						default:
-							if isNil, has := ReturnsNilLast(fl.Info, p.Ev[ri]); has && isNil {
+							if isNil, has := ReturnsNilLast(fl.Info, p.Ev[ri]); has && isNil && !classifiedBetween(fl.Info, p, u.At, ri, u.Var) {
 								problem = "the failing branch returns nil"
 							}
 						}
@@ -939,6 +973,20 @@ func errorDiscipline(r *Run, rule string, fn *Func) {
 				case u.Verdict == "overwritten":
 					problem = "the error is overwritten (by " + ExprStr(p.Ev[u.At].Node.(*ast.AssignStmt).Rhs[0]) + ") before it is tested"
 				case u.Verdict == "untested":
+					// an error built from another one and stored in a variable the path then returns (wrapped or not) is returned
+					if p.Exit == ExitReturn && u.Var != nil {
+						if ri := FirstAfter(p, ci, func(x Event) bool { return x.Kind == EvReturn && !x.Deferred }); ri >= 0 {
+							used := false
+							for _, res := range p.Ev[ri].Rhs {
+								if mentionsObj(fl.Info, res, u.Var) {
+									used = true
+								}
+							}
+							if used {
+								break
+							}
+						}
+					}
 					if p.Exit == ExitReturn {
 						problem = "the error is never tested on a returning path"
 					}
@@ -1646,4 +1694,36 @@ func ruleSubmitErrorHandled(r *Run, rule string) {
 	if n == 0 {
 		r.Unresolved(rule, "Pool.Submit calls in the vault packages")
 	}
+}
+
+// classifiedBetween: between the non-nil test of an error and the return, the path took a branch on a classifier of that very
+// error — a call that is given the error (isNotFound(err), errors.Is(err, …), errors.As) answered true. Mapping one
+// recognised error to a value ("not found" ⇒ false, nil) is not dropping it.
+func classifiedBetween(info *types.Info, p *Path, from, to int, errVar types.Object) bool {
+	if errVar == nil {
+		return false
+	}
+	for j := from; j < to && j < len(p.Ev); j++ {
+		e := p.Ev[j]
+		if e.Kind != EvBranch || e.Cond == nil || !e.Taken {
+			continue
+		}
+		found := false
+		ast.Inspect(e.Cond, func(n ast.Node) bool {
+			c, ok := n.(*ast.CallExpr)
+			if !ok || found {
+				return true
+			}
+			for _, a := range c.Args {
+				if ObjOf(info, a) == errVar {
+					found = true
+				}
+			}
+			return true
+		})
+		if found {
+			return true
+		}
+	}
+	return false
 }
